@@ -30,6 +30,7 @@ def run(ctx):
     ctx.step(stable, ctx, ws)
     ctx.step(initial, ctx)
     ctx.step(wake, ctx)
+    ctx.step(exit_rule, ctx)
     ctx.step(nonblock, ctx)
     ctx.step(common.atomic_floors, ctx, "C10.orders", [CLS], floor=2, files=["Latch.hpp"])
     ctx.step(common.raii_only, ctx, "C10.raii", ["Latch.hpp"], floor=3)
@@ -192,6 +193,108 @@ def wake(ctx):
                    "inequality on counter_", "" if not eqs else "counter_ is decreased by a caller-chosen amount at %s but tested for "
                    "equality with zero: an arrival that takes it below zero wakes nobody and the waiters stay blocked"
                    % f.loc(op["st"]), fn=top.label, inst=f.qname)
+
+
+def _says_open(f, cond, val, depth=0):
+    """does the outcome `val` of branch condition `cond` establish counter_ <= 0?  None: the condition does not read
+    counter_; False: it reads it but this outcome says 'still counting' (or cannot be read)"""
+    c = unwrap(f, cond)
+    while c is not None and c["k"] == "UnaryOperator" and c.get("op") == "!":
+        val = not val
+        c = unwrap(f, f.children(c)[0])
+    if c is None:
+        return None
+    if c["k"] == "DeclRefExpr" and c["d"].get("k") == "local" and depth < 4:
+        # `const bool pending = counter_ > 0; if (!pending) break;` - a local computed from the counter and tested
+        inits = [f.s(d.get("init")) for s_ in f.stmts.values() if s_["k"] == "DeclStmt" for d in s_["decls"]
+                 if d["id"] == c["d"].get("id") and d.get("init")]
+        reassigned = any(s_["k"] == "BinaryOperator" and s_.get("op") == "=" and path(f, f.children(s_)[0]) == path(f, c)
+                         for s_ in f.stmts.values())
+        if len(inits) == 1 and not reassigned:
+            return _says_open(f, inits[0], val, depth + 1)
+        return None
+    reads = any(d["k"] == "MemberExpr" and d["m"].get("is_field") and d["m"]["name"] == "counter_" for d in [c] + list(f.descendants(c)))
+    if not reads:
+        return None
+    if c["k"] == "BinaryOperator" and c.get("op") in ("&&", "||"):
+        l, r = f.children(c)
+        # `a && b` false / `a || b` true say nothing definite about one operand; the definite outcomes are conjunctions
+        if (c["op"] == "&&" and val) or (c["op"] == "||" and not val):
+            rs = [_says_open(f, x, val) for x in (l, r)]
+            return True if True in rs else (False if False in rs else None)
+        return False
+    ops = None
+    if c["k"] == "BinaryOperator":
+        ops, op = f.children(c), c.get("op")
+    elif c["k"] == "CXXOperatorCallExpr" and len(c["args"]) == 2:
+        ops, op = [f.s(a) for a in c["args"]], c.get("op")
+    if not ops or op not in (">", ">=", "<", "<=", "==", "!="):
+        return False
+    l, r = [unwrap(f, x) for x in ops]
+    if l is not None and l["k"] == "IntegerLiteral":
+        l, r = r, l
+        op = {"<": ">", ">": "<", "<=": ">=", ">=": "<="}.get(op, op)
+    if r is None or r["k"] != "IntegerLiteral":
+        return False
+    k = r.get("v")
+    closed_when_true = (op == ">" and k == 0) or (op == ">=" and k == 1) or (op == "!=" and k == 0)
+    open_when_true = (op == "<=" and k == 0) or (op == "<" and k == 1) or (op == "==" and k == 0)
+    if closed_when_true:
+        return not val
+    if open_when_true:
+        return val
+    return False
+
+
+def exit_rule(ctx, rid="C10.exit"):
+    """wait() returns only on an OBSERVATION that the count has been reached: every path from its entry to a return
+    passes a test of counter_ whose outcome says 'not above zero' (the unlocked fast path, the loop condition, or a
+    predicate wait on counter_).  A shortcut that returns on anything else - a cached answer, a flag of another object,
+    a time-out - lets a waiter through a closed latch."""
+    from ..flow import paths, path_positions, TooManyPaths
+    from ..cv import predicate_lambda
+    ctx.rule(rid, "every return of wait() follows an observation of counter_ <= 0", floor=1)
+    n = 0
+    for f in ctx.fb.functions(rec=CLS, name="wait"):
+        n += 1
+        try:
+            ps = paths(f)
+        except TooManyPaths:
+            ctx.unknown("%s: too many paths in %s" % (rid, f.label))
+            continue
+        bad = None
+        for p in ps:
+            if p[-1][0] != f.exit:
+                continue
+            seen = False
+            last_branch = None
+            for kind, pos, val in path_positions(f, p):
+                if kind == "branch":
+                    cond = f.s(f.blocks[pos[0]].term.get("cond"))
+                    r = _says_open(f, cond, val) if cond is not None else None
+                    if r is True:
+                        seen = True
+                    elif r is False:
+                        seen = False        # a later look at the counter that says 'still counting' overrides
+                    last_branch = cond if cond is not None else last_branch
+                elif kind == "elem":
+                    e = f.elem(pos)
+                    if e["k"] == "S":
+                        st = f.stmts[e["s"]]
+                        if st["k"] == "CXXMemberCallExpr" and st["callee"]["name"] == "wait" and len(st["args"]) >= 2 and \
+                                path(f, f.s(st["obj"])) == "this.cv":
+                            g = predicate_lambda(ctx, f, st)
+                            rets = [s for s in g.stmts.values() if s["k"] == "ReturnStmt"] if g is not None else []
+                            if len(rets) == 1 and _says_open(g, g.children(rets[0])[0], True) is True:
+                                seen = True
+            if not seen:
+                bad = "a path returns without having seen counter_ <= 0 (last test on it: %s)" % (
+                    f.loc(last_branch) if last_branch is not None else "none")
+                break
+        ctx.ob(rid, bad is None, f.where, "wait() returns only after it has observed the count reached", bad or "",
+               fn=f.label, inst=f.qname)
+    if n == 0:
+        ctx.broken("Latch::wait not found (anchor vanished)")
 
 
 def nonblock(ctx):
